@@ -280,7 +280,7 @@ def real_signal(ctx):
             after = [i for kind, i, _ in snap[tstop[0]:] if kind == "start"]
             if len(after) > workers:
                 ctx.fail("signal:late-starts", "%d calls started after the handler set stop (max_workers=%d)" % (len(after), workers), case)
-        if backlog and state["sig"] is not None:
+        if backlog and state["sig"] is not None and outcome == "interrupted":      # (only when the interrupt did reach the calling thread during the run)
             # independent of the instrumentation: calls that began more than a second after the signal was sent
             late = [i for kind, i, t in snap if kind == "start" and t > state["sig"] + 1.0]
             if len(late) > workers:
